@@ -197,6 +197,9 @@ def safe_run(mod, case):
                  ''.join(traceback.format_exception_only(type(e), e)).strip())
     if not isinstance(res, CaseResult):
         raise HarnessError('run_case returned %r' % (res,))
+    hol = sys.modules.get('vlib.hollow')
+    if hol is not None:
+        hol.cleanup()
     return res
 
 
